@@ -216,9 +216,15 @@ class Compiler:
             try:
                 return get_as_int(state, "link address", state["insn"], address, bitness=16, unsigned=False)
             except DeferredCycle:
+                try:
+                    value = repr(address.resolve(state))
+                except DeferredCycle:
+                    # The expression needs the value of the link base even to be written down
+                    # (e.g. '(LA + 10) / 2')
+                    value = repr(address)
                 reports.error(
                     "recursive-definition",
-                    (state["insn"].ctx_start, state["insn"].ctx_end, f"The link base is mathematically equal to {address.resolve(state)!r},\nwhere LA denotes link base. In other words, the link base depends on itself,\nand thus cannot be determined.")
+                    (state["insn"].ctx_start, state["insn"].ctx_end, f"The link base is mathematically equal to {value},\nwhere LA denotes link base. In other words, the link base depends on itself,\nand thus cannot be determined.")
                 )
                 return 0
 
